@@ -5,6 +5,7 @@ tier=${1:-quick}; par=${2:-4}; filt=${3:-.}
 one() {
   d=$1; tier=$2
   id=$(basename $d); prop=$(echo $id | cut -d- -f1 | cut -c1-3)
+  if grep -q '"stale"' $d/meta.json 2>/dev/null; then echo "$id stale (written against an earlier tree, see meta.json)"; return; fi
   out=$(VSEED_KEEP=1 SEED_LINES=3 /verif/tools/verify_seed.sh $d $id $prop $tier 2>&1)
   suite=$(echo "$out" | grep -c "suite: green"); demo1=$(echo "$out" | grep -c "vseed.*exit 1"); demo0=$(echo "$out" | grep -c "/repo: exit 0")
   det=$(echo "$out" | grep -c "^VIOLATION property=$prop")
